@@ -235,7 +235,7 @@ def check_class(part, desc, root, all_values):
         part.case(key=json.dumps(case, sort_keys=True))
         text = f"{type(e).__name__}: {e}"
         c = cause(cls, text)
-        part.violation(f"unstructure-raises:{type(e).__name__}|{c}" if c else None, case, f"unstructure raised {text[:400]}")
+        part.violation(f"unstructure-raises:{c}" if c else None, case, f"unstructure raised {text[:400]}")
         return
     nt = nontrivial(dct)
     routes = [("dict", dct)]
@@ -255,14 +255,14 @@ def check_class(part, desc, root, all_values):
         except Exception as e:  # noqa
             text = f"{type(e).__name__}: {e}"
             c = cause(cls, text)
-            part.violation(f"structure-raises:{type(e).__name__}|{c}" if c else None, case,
+            part.violation(f"structure-raises:{c}" if c else None, case,
                            f"structure(unstructure(cls)) raised {text[:500]}; dictionary {str(d)[:600]}")
             continue
         diffs = class_diffs(cls, R)
         if diffs:
             w, n, a, x, y = diffs[0]
             c = cause(cls, a)
-            sig = f"differs:{w}.{a}" + (f"|{c}" if c else "")
+            sig = f"differs:{w}.{a}" + (f":{c}" if c else "")
             part.violation(sig, case, f"{len(diffs)} difference(s); first: {w} field {n!r} attribute {a}: original {x!r}, "
                                       f"re-created {y!r}; dictionary {str(d)[:500]}")
             continue
